@@ -5,7 +5,9 @@ use ntex_service::{Pipeline, Service, ServiceCtx};
 use ntex_util::future::{Either, join};
 use ntex_util::{HashSet, services::inflight::InFlightService};
 
-use crate::error::{DispatcherError, PayloadError, ProtocolError, SpecViolation};
+use crate::error::{
+    DecodeError, DispatcherError, PayloadError, ProtocolError, SpecViolation,
+};
 use crate::v3::codec::{self, Decoded, Encoded, Packet};
 use crate::v3::shared::{Ack, MqttShared};
 use crate::v3::{control::ProtocolMessageKind, publish::Publish};
@@ -168,14 +170,18 @@ where
                 .await
             }
             Decoded::PayloadChunk(buf, eof) => {
-                let pl = self.inner.payload.take().unwrap();
-                pl.feed_data(buf);
-                if eof {
-                    pl.feed_eof();
+                if let Some(pl) = self.inner.payload.take() {
+                    pl.feed_data(buf);
+                    if eof {
+                        pl.feed_eof();
+                    } else {
+                        self.inner.payload.set(Some(pl));
+                    }
+                    Ok(None)
                 } else {
-                    self.inner.payload.set(Some(pl));
+                    // publish packet has been refused
+                    Err(ProtocolError::Decode(DecodeError::UnexpectedPayload).into())
                 }
-                Ok(None)
             }
             Decoded::Packet(Packet::PublishAck { packet_id }, _) => {
                 if let Err(e) = self.inner.sink.pkt_ack(Ack::Publish(packet_id)) {
